@@ -255,9 +255,12 @@ Definition undo_list (sch : schema) (ws : list wentry) (st : tstate) : tstate :=
   fold_left (fun s w => undo_entry sch w s) (rev ws) st.
 
 (* ------------------------------------------------------------------ one handle: statement dispatch *)
-Definition sp_find (n : Z) (l : list (Z * nat)) : option nat :=
-  (fix go (l : list (Z * nat)) (i : nat) : option nat :=
-     match l with [] => None | (m, _) :: l' => if m =? n then Some i else go l' (S i) end) l O.
+(* find_savepoint: position of the FIRST marker with that name *)
+Fixpoint sp_find (n : Z) (l : list (Z * nat)) : option nat :=
+  match l with
+  | [] => None
+  | (m, _) :: l' => if m =? n then Some O else match sp_find n l' with Some i => Some (S i) | None => None end
+  end.
 Definition sp_remove (i : nat) (l : list (Z * nat)) : list (Z * nat) := firstn i l ++ skipn (S i) l.
 
 Definition log_dml (tx : option txn) (es : list wentry) : option txn :=
